@@ -45,7 +45,9 @@ def build_equipment(span, si=None, roadm=None, multiband=False):
     if key not in _EQ_CACHE:
         bkey = 'base_mb' if multiband else 'base'
         if bkey not in _EQ_CACHE:
-            _EQ_CACHE[bkey] = load_json(Path(example_dir()) / ('eqpt_config_multiband.json' if multiband else 'eqpt_config.json'))
+            # the multiband library of gnpy's own tests (tests/data): it has Multiband_amplifier models allowed for design
+            _EQ_CACHE[bkey] = load_json(Path(example_dir()).parent.parent / 'tests' / 'data' / 'eqpt_config_multiband.json'
+                                        if multiband else Path(example_dir()) / 'eqpt_config.json')
         ej = copy.deepcopy(_EQ_CACHE[bkey])
         ej['Span'][0].update(span)
         if si:
@@ -56,7 +58,11 @@ def build_equipment(span, si=None, roadm=None, multiband=False):
             keep = {k: v for k, v in _EQ_CACHE.items() if k in ('base', 'base_mb')}
             _EQ_CACHE.clear()
             _EQ_CACHE.update(keep)
-        _EQ_CACHE[key] = _equipment_from_json(ej, DEFAULT_EXTRA_CONFIG)
+        extra = DEFAULT_EXTRA_CONFIG
+        if multiband:
+            name = 'std_medium_gain_advanced_config.json'
+            extra = dict(DEFAULT_EXTRA_CONFIG, **{name: load_json(Path(example_dir()).parent.parent / 'tests' / 'data' / name)})
+        _EQ_CACHE[key] = _equipment_from_json(ej, extra)
     return _EQ_CACHE[key]
 
 
@@ -371,6 +377,7 @@ def gen_entry_case(rng):
                 # a short span: below the padding with the usual connectors
                 e['len'] = rng.choice([5, 12.5, 20, 30, 35])
                 e.pop('units', None)
+                e.pop('lumped', None)
             if e['k'] in 'FR' and rng.random() < 0.3:
                 e['con_in'], e['con_out'] = rng.choice([(0.5, 0.5), (0, 0), (0.25, 1), (None, 0.5)])
     place_user_amps(rng, case, rng.choice([1, 1, 0.8, 0.5]))
@@ -383,44 +390,36 @@ LBAND = {'f_min': 186.3e12, 'f_max': 190.1e12, 'spacing': 50e9}
 
 
 def gen_multiband_case(rng):
-    """C+L line systems on the multiband library: operator-placed Multiband_amplifier elements at some / all / none of the
-    sites of a line, ROADMs with no, one or two node-level design bands (the bands of a degree are then derived from the
-    amplifiers of its OMS), short spans, fused junctions"""
-    span = gen_span(rng)
-    span['max_length'] = rng.choice([150, 120, 100])
+    """C+L line systems on the multiband library whose bands are only implicit: operator-placed Multiband_amplifier
+    elements (with a type_variety) at some in-line sites of every line, ROADMs without multi-band design_bands (none, or
+    the C band only), operator booster / preamp now and then; the bands of a degree are then derived from the amplifiers
+    of its OMS and the inserted boosters / preamps / in-line amplifiers have to be Multiband_amplifiers too"""
+    span = {'max_length': rng.choice([150, 120]), 'padding': rng.choice([10, 10, 8]), 'EOL': 0, 'con_in': rng.choice([0, 0.5]),
+            'con_out': rng.choice([0, 0.5]), 'power_mode': True, 'delta_power_range_db': [-2, 3, 0.5]}
     n = rng.choice([2, 2, 3])
     names = [chr(65 + i) for i in range(n)]
     roadms, lines = {}, []
     for x in names:
         r = {}
-        db = rng.choice([None, None, [CBAND], [CBAND, LBAND]])
-        if db is not None:
-            r['params'] = {'design_bands': copy.deepcopy(db)}
+        if rng.random() < 0.3:
+            r['params'] = {'design_bands': [copy.deepcopy(CBAND)]}
         roadms[f'roadm {x}'] = r
     for a, b in zip(names, names[1:]):
         for s, t in ((a, b), (b, a)):
             tag = s + t
-            multi_oms = rng.random() < 0.7 or len(roadms[f'roadm {s}'].get('params', {}).get('design_bands', [])) > 1
-            els = []
-            nf = rng.choice([1, 2, 2, 3])
+            nf = rng.choice([2, 2, 3])
+            sites = list(range(nf - 1))
+            user = set(rng.sample(sites, rng.randint(1, len(sites))))      # at least one Multiband_amplifier per line
 
             def amp(uid):
-                if multi_oms:
-                    return {'k': 'A', 'uid': uid, 'multi': True, 'variety': 'std_medium_gain_multiband'}
-                return {'k': 'A', 'uid': uid, 'variety': rng.choice(['std_medium_gain', 'std_low_gain'])}
-            if rng.random() < 0.3:
-                els.append(amp(f'booster {tag}'))
+                return {'k': 'A', 'uid': uid, 'multi': True, 'variety': 'std_medium_gain_multiband'}
+            els = [amp(f'booster {tag}')] if rng.random() < 0.2 else []
             for k in range(nf):
-                f = {'k': 'F', 'uid': f'fiber {tag}{k}', 'len': round(rng.choice([rng.uniform(40, 100), 25, 160]), 3), 'lc': 0.2,
-                     'variety': 'SSMF', 'con_in': None, 'con_out': None, 'att_in': 0}
-                els.append(f)
-                if k + 1 < nf:
-                    r = rng.random()
-                    if r < 0.6:
-                        els.append(amp(f'ila {tag}{k}'))
-                    elif r < 0.7:
-                        els.append({'k': 'U', 'uid': f'fused {tag}{k}', 'loss': 1})
-            if rng.random() < 0.3:
+                els.append({'k': 'F', 'uid': f'fiber {tag}{k}', 'len': round(rng.choice([rng.uniform(50, 90), 60, 80]), 3),
+                            'lc': 0.2, 'variety': 'SSMF', 'con_in': None, 'con_out': None, 'att_in': 0})
+                if k in user:
+                    els.append(amp(f'ila {tag}{k}'))
+            if rng.random() < 0.2:
                 els.append(amp(f'preamp {tag}'))
             lines.append({'src': f'roadm {s}', 'dst': f'roadm {t}', 'els': els})
     return {'kind': 'multiband', 'equipment': 'multiband', 'span': span, 'roadms': roadms, 'lines': lines, 'shuffle': None,
@@ -933,6 +932,14 @@ def m_f18(v):
     return v['key'] == 'split_raman_lost' and d.get('was_raman') is True and d.get('n_parts', 0) > 1
 
 
+def m_f25(v):
+    """set_fiber_input_power reads `previous_node` (only bound while walking back over Fused elements) for a fibre that
+    directly follows a ROADM: reachable when nothing is inserted (no_insert_edfas) and the operator placed no booster"""
+    d = v.get('detail', {})
+    return v['key'] == 'design_raises' and d.get('exc_type') == 'UnboundLocalError' and d.get('no_insert') is True \
+        and d.get('fibre_directly_after_roadm') is True and 'previous_node' in d.get('exc', '')
+
+
 # exception types the chain model can produce (anything else, e.g. ROADM equalisation errors, is outside the model)
 MODEL_EXCEPTIONS = ('ZeroDivisionError', 'NetworkTopologyError')
 
@@ -941,6 +948,7 @@ MATCHERS = {
     'F16-min-length-above-max-length': m_f16,
     'F17-padding-skipped-at-fused': m_f17,
     'F18-raman-split-to-fiber': m_f18,
+    'F25-fibre-after-roadm-input-power': m_f25,
 }
 
 
@@ -986,6 +994,9 @@ def classify_exception(case, rec):
         if e['lumped'] and e['len'] >= mxl and tg > 0 and e['len'] // tg >= 1:
             lb = True
     d['lumped_beyond_subspan'] = lb
+    # entry point with no_insert_edfas on a topology where a fibre directly follows a ROADM (no operator booster)
+    d['no_insert'] = no_insert(case)
+    d['fibre_directly_after_roadm'] = any(ln['src_kind'] == 'R' and ln['els'] and ln['els'][0]['k'] in 'FR' for ln in rec['before'])
     return d
 
 
@@ -1020,7 +1031,7 @@ def run(ctx):
     if ctx.replay:
         cases = [json.load(open(ctx.replay))['case']]
     else:
-        n = ctx.scale(240, 4000)
+        n = ctx.scale(200, 4000)
         cases += [gen_case(rng) for _ in range(n)]
         cases += [gen_case(rng, 'raman_auto') for _ in range(ctx.scale(4, 40))]
         cases += [gen_case(rng, 'risky_span') for _ in range(ctx.scale(6, 60))]
